@@ -215,10 +215,10 @@ def gen_sequential(ctx):
         N = vlib_geometry(nbytes)
         for rep in range(2 if q else 12):
             ops = []
-            while len(ops) < 24:          # (the Lean driver's run time grows steeply beyond ~32 operations)
+            while len(ops) < 56:          # (harness and driver accept 64 operations per thread)
                 k = rng.choice([max(3, N // 2 - 1), max(3, N // 2 - 1), max(3, N // 4), max(3, N // 3), 3, 5])
                 ops += ["a%d" % bytes_for(k, rng), "f"] if rng.random() < 0.7 else ["a%d" % bytes_for(k, rng)]
-            ops = ops[:24] + ["f"] * 4
+            ops = ops[:56] + ["f"] * 4
             r = seq_run(N, ops, "seq-odd-size")
             r["conf"][0] = "conf %d 0" % nbytes
             runs.append(r)
